@@ -834,7 +834,7 @@ func TestVerifC07Clients(t *testing.T) {
 	c07rHistory(t, out, vfNewRand(5), 0, "owners-scripted", c07rScripted)
 	c07rHistory(t, out, vfNewRand(6), 30, "owners-prelude", nil)
 	rnd := vfNewRand(out.Seed)
-	n := out.Scale(12, 150)
+	n := out.Scale(12, 60)
 	for i := 0; i < n; i++ {
 		r := rnd.Fork(uint64(i))
 		c07rHistory(t, out, r, int(r.Range(8, 40)), "owners-random", nil)
